@@ -187,11 +187,33 @@ def ob_count(which, timeout=30):
     if len(loops) != 1:
         raise Unsupported('_run is not a single trial loop')
     loop = loops[0]
-    if ast.unparse(loop.iter) != 'progress(list(range(min_current_trial, n_trials)))':
+    # loop shape (names free): for t in progress(list(range(<m>, n_trials))) with <m> = min over the simulations of n_results, possibly through temporaries;
+    # load_results() called before the loop
+    it = loop.iter
+    rng = None
+    for n_ in ast.walk(it):
+        if isinstance(n_, ast.Call) and isinstance(n_.func, ast.Name) and n_.func.id == 'range' and len(n_.args) == 2:
+            rng = n_
+    if rng is None or not (isinstance(rng.args[0], ast.Name) and ast.unparse(rng.args[1]) == 'n_trials'):
         raise Unsupported('trial loop iterates %s' % ast.unparse(loop.iter))
-    src = ast.unparse(f.node)
-    if 'min_current_trial = min([simulation.n_results for simulation in self._simulations])' not in src or 'self.load_results()' not in src:
-        raise Unsupported('_run prologue changed')
+    others = [n_.func.id for n_ in ast.walk(it) if isinstance(n_, ast.Call) and isinstance(n_.func, ast.Name) and n_.func.id not in ('range', 'list', 'progress')]
+    if others:
+        raise Unsupported('trial loop iterates %s' % ast.unparse(loop.iter))
+
+    def defining(name, depth=0):
+        for st_ in f.node.body:
+            if isinstance(st_, ast.Assign) and any(isinstance(t_, ast.Name) and t_.id == name for t_ in st_.targets):
+                return st_.value
+        return None
+    start = defining(rng.args[0].id)
+    txt = ast.unparse(start) if start is not None else ''
+    if start is not None and isinstance(start, ast.Call) and ast.unparse(start.func) == 'min' and len(start.args) == 1 and isinstance(start.args[0], ast.Name):
+        inner = defining(start.args[0].id)
+        txt = 'min(%s)' % (ast.unparse(inner) if inner is not None else '?')
+    if not (txt.startswith('min(') and '.n_results for ' in txt and txt.rstrip(')').rstrip(']').endswith('in self._simulations')):
+        raise Unsupported('_run prologue changed: the first trial index is %s' % (txt or 'not assigned'))
+    if not any(isinstance(n_, ast.Call) and ast.unparse(n_.func) == 'self.load_results' for st_ in f.node.body[:f.node.body.index(loop)] for n_ in ast.walk(st_)):
+        raise Unsupported('_run prologue changed: load_results() is not called before the trial loop')
     Nn, n, t = z3.Ints('N n t')
     ran, saves, updates = [], [], []
 
